@@ -535,6 +535,12 @@ def check_declared(rep: Report) -> None:
         rep.check("R05.5", f"scale-leaf:{s.a.name}", not others,
                   f"scale unit {s.a.name!r} (non-zero offset) also appears in {[o.text for o in others][:2]}: a path between "
                   "offset-free units could pass through an offset hop and zero would not map to zero", others[0].where if others else s.where)
+        # ... or as a factor of a *named* compound unit (`Unit.derive(BTU / (Hour * Foot**2 * Fahrenheit), "U-factor", ..)`): every
+        # conversion of that unit matches the factor through the offset hop
+        named = [u for u in ev.unit_by_id.values() if u is not s.a and u.names and s.a.uid in u.factors]
+        rep.check("R05.5", f"scale-factor:{s.a.name}", not named,
+                  f"scale unit {s.a.name!r} (non-zero offset) is a factor of the named unit(s) {[u.name for u in named][:3]}: converting them passes through "
+                  "the offset hop, so zero does not map to zero (0 U-factor converts to 8906 W/(m^2 K))", named[0].where if named else s.where)
     rep.analysed["declared_edges"] = len(ev.edges)
     rep.analysed["scales"] = [s.a.name for s in scales]
     # R05.12: a base unit whose own dimension is the inverse of a fundamental one (a frequency unit: T^-1) is filed by _splat
